@@ -27,6 +27,7 @@ Check ==
     ELSE IF Ev.inv1 # a \/ Ev.inv2 # a THEN Say("CLK", "addition and subtraction are not inverse")
     ELSE IF Ev.cmp \notin {-1, 0, 1} THEN Say("CLK", "ordering is not total")
     ELSE IF (Ev.cmp = 0) # (a = d) \/ Ev.eq # (a = d) \/ Ev.equ # (a = d) \/ Ev.ueq # (a = d) THEN Say("CLK", "ordering or equality disagrees with equality of values")
+    ELSE IF "fresh" \in DOMAIN Ev /\ ~Ev.fresh THEN Say("CLK", "a timestamp produced by arithmetic or set() does not equal a fresh timestamp of the same value (ordering must agree with equality)")
     ELSE IF Ev.rcmp # -Ev.cmp THEN Say("CLK", "ordering is not antisymmetric")
     ELSE IF wnt \in {-1, 1} /\ Ev.cmp # wnt THEN Say("CLK", "a time 1..2^31-1 ms ahead (mod 2^32) is not ordered as later")
     ELSE IF ~OpsOK(Ev.ops, Ev.cmp) THEN Say("CLK", "comparison operators disagree with cmp")
